@@ -147,3 +147,5 @@ PENDING["C07"] = {
     "note": _NOTE + " The numeric quality/convergence of the PageRank iteration is out of reach of this technique (a non-returning call makes the driver exit 2).",
     "technique": "TLA+ models + TLC; trace validation of scheduler, analyzer and store traces; spec->code replay of TLC counterexample and simulated schedules on the real store",
 }
+
+CHECKS["C07"] = PENDING.pop("C07")
